@@ -86,8 +86,15 @@ def main(tier: str, seed: int) -> int:
             U = lambda m: int.from_bytes(bytes(m), 'big')
             t, a, b = U(r['t']) + delta, U(r['a']) + delta, U(r['b']) + delta
             pad = {2: 4, 3: 5, 9: 9}.get(r['pad'], 1)
-            script, doc = build_script(T, r['kind'], a, b, pad, r['vfy'])
             rep.case(json.dumps([r['kind'], r['t'], r['a'], r['b'], r['thr'], r['pad'], r['vfy']]))
+            try:
+                script, doc = build_script(T, r['kind'], a, b, pad, r['vfy'])
+            except Exception as e:
+                from ..scncheck import raised_in_repo
+                if not raised_in_repo(e):
+                    raise
+                rep.violation(f"builder {r['kind']} raised {type(e).__name__}: {e} for a={a} b={b} vfy={r['vfy']}", {'kind': 'builder', 'record': r})
+                continue
             if script != doc:
                 rep.violation(f"builder {r['kind']} output {script.hex()} is not the documented sequence {doc.hex()}",
                               {'kind': 'builder', 'record': r})
@@ -117,7 +124,14 @@ def main(tier: str, seed: int) -> int:
         b = a + rng.choice([0, 1, 2, 1000])
         vfy = rng.random() < 0.5
         pad = rng.choice([1, 8, 9])
-        script, doc = build_script(T, kind, a, b, pad, vfy)
+        try:
+            script, doc = build_script(T, kind, a, b, pad, vfy)
+        except Exception as e:
+            from ..scncheck import raised_in_repo
+            if not raised_in_repo(e):
+                raise
+            rep.violation(f"builder {kind} raised {type(e).__name__}: {e} for a={a} b={b} vfy={vfy}", {'kind': 'builder', 'case': [kind, a, b, vfy]})
+            continue
         if rng.random() < 0.3:         # the same lock as a committed script (scripthash / taproot script path style): inside EVAL
             script = push(script) + op('EVAL')
         got = run_real(F, script, kind, t, now, thr)
